@@ -392,7 +392,7 @@ impl Property for C33 {
     type Case = C33Case;
     const ID: &'static str = "C33";
     const RULE: &'static str = "(a) source snapshots with stratum 0..=17, reachable or not, source address from a pool that overlaps the local address list (v4/v6), reference id arbitrary or equal to the id of a local address, NTPv5 Bloom filter absent / without / with this daemon's server id, local stratum 1..16: acceptance implies every condition of the statement; (b) lists of used NTP/external sources: advertised stratum = primary + 1 (or the local stratum without sources), reference id = primary's id, the filter contains our id; (c) a plain association end to end: answers with stratum/reference id (incl. the id of a local address): the controller is told 'usable' only if the conditions hold for the state after that answer; (d) an NTPv5 association end to end with an honest scripted server whose 512-byte Bloom filter does or does not contain this daemon's id, 20..80 polls of which about one in ten stays unanswered: whenever the source is reported usable, a filter it regards as complete must be the server's and must not contain this daemon's id; (e) rounds of NtpManager::update_used_sources over external source types (PPS/SOCK/CSPTP: stratum 0, fixed identifiers) and not-yet-reported NTP ids: advertised stratum/reference id as in (b), unchanged while a used NTP source has not reported; non-trivial = a case where at least one rejection reason applies";
-    const ASSUMPTIONS: &'static [&'static str] = &["reference ids of addresses are computed with the crate's own ReferenceId::from_ip (RFC 5905 rule)"];
+    const ASSUMPTIONS: &'static [&'static str] = &["the reference id a looping source reports for one of this daemon's addresses is the RFC 5905 value (IPv4 address, or first four octets of the MD5 of the IPv6 address), computed by the harness with the md-5 crate"];
     const QUICK_CASES: u32 = 1_000_000;
     const THOROUGH_CASES: u32 = 20_000_000;
     fn strategy(_t: Tier) -> BoxedStrategy<C33Case> {
